@@ -149,6 +149,15 @@ CHECKS = {
               'compared. Hooks on scc, _order_nonterminals and sum_product_edges record the orders actually taken; the run is inconclusive unless at '
               'least half of the grammars that offer a choice were seen under >= 2 distinct orders and the hash seeds changed some order.'),
         design_ref='DESIGN.md §4 C12'),
+    'C15': dict(
+        technique='contract hook (pre/post snapshot) on replace_edge + confluence monitor over all linearisations of generated derivations + independent plain-data expansion and isomorphism oracle (runtime monitoring)',
+        text=('Runtime monitoring: a wrapper on replace_edge (active also for the calls derive() makes) snapshots the host before each call and checks the '
+              'post-state of the statement: exactly that edge gone, externals identified in order, every other node and edge copied freshly with '
+              'label and attachment order, rest of the host and its externals untouched, replacement unmodified, wrong type => ValueError with the '
+              'host unchanged. Generated derivation trees (up to 6/9 rule instances, same rule reused) are rewritten in every linearisation of the '
+              'pending nonterminal edges (exhaustive when <= 720 orders); all results must be isomorphic to each other and to an independent '
+              'plain-data expansion; derive() must yield that graph with a total assignment whose weight equals the product of the rule-instance weights.'),
+        design_ref='DESIGN.md §4 C15'),
 }
 
 NOT_BUILT = {}
